@@ -320,9 +320,9 @@ def key_of(div, fam):
 
 
 # ------------------------------------------------------------------------------------------------------------
-def emit(cfg, timeout=3000):
+def emit(cfg, timeout=3000, mod=MOD):
     if cfg not in _CACHE:
-        res = tlc.run(MOD, cfg, MODDIR, workers=1, coverage=False, timeout=timeout)
+        res = tlc.run(mod, cfg, MODDIR, workers=1, coverage=False, timeout=timeout)
         cat = [p for p in res.prints if isinstance(p, dict) and "CT" in p]
         cases = [p for p in res.prints if isinstance(p, dict) and "path" in p]
         if not cat or not cases:
@@ -351,13 +351,14 @@ def run(rep, tier, seed):
     rng = random.Random(seed)
     tlc.sany(MOD, MODDIR)
     tlc.sany("AxialExpansion_trace", MODDIR)
+    tlc.sany("CoreMesh_mc", MODDIR)
     rep.exhaustive = True
 
     # 1. exhaustive model checking: all clauses that hold, the exact laws, refusals.  (-coverage makes TLC's cost model
     #    explode on this module's operator DAG, so non-vacuity is measured on the emitted behaviours below.)
     if not _SELFTEST:
-        for cfg in ("AxialExpansion_mc%s.cfg" % sfx, "AxialExpansion_deep%s.cfg" % sfx):
-            res = tlc.run(MOD, cfg, MODDIR, want_prints=False, coverage=False, timeout=3000)
+        for cfg in ("AxialExpansion_mc%s.cfg" % sfx, "AxialExpansion_deep%s.cfg" % sfx, "CoreMesh_mc%s.cfg" % sfx):
+            res = tlc.run("CoreMesh_mc" if cfg.startswith("Core") else MOD, cfg, MODDIR, want_prints=False, coverage=False, timeout=3000)
             rep.add_tlc("exhaustive:" + cfg, res)
             if res.violation:
                 rep.violation("tlc:" + res.violation["name"], "TLC: %s violated in the specification (%s)" % (res.violation["name"], cfg),
@@ -379,7 +380,7 @@ def run(rep, tier, seed):
         refuted = {cl: "" for cl in CLAUSES}
 
     # 3. spec -> code: behaviours of the emission instance and the static cases on real assemblies
-    for fam, cfg, cap in (("replay", "AxialExpansion_emit%s.cfg" % sfx, 2000 if _SELFTEST else 40000 if thorough else 3500),
+    for fam, cfg, cap in (("replay", "AxialExpansion_emit%s.cfg" % sfx, 2000 if _SELFTEST else 40000 if thorough else 2800),
                           ("cases", "AxialExpansion_cases%s.cfg" % sfx, None)):
         eres, cat, cases = emit(cfg)
         rep.add_tlc("behaviours:" + cfg, eres)
@@ -439,6 +440,34 @@ def run(rep, tier, seed):
                 elif not any(v["key"].startswith("replay:") for v in rep.violations):
                     raise tlc.MachineryError("TLC refutes %s, the real code conforms to the model, yet the measurement does not show it: %s" % (cl, m))
 
+    # 3c. core level: reference assembly + followers in a real Core, calls interleaved with manageCoreMesh
+    ccfg = "CoreMesh_emit%s.cfg" % sfx
+    cres, ccat, ccases = emit(ccfg, mod="CoreMesh_mc")
+    rep.add_tlc("behaviours:" + ccfg, cres)
+    if not any(c["path"] and c["path"][-1]["n"] == "Manage" and len(c["path"]) > 1 for c in ccases):
+        raise tlc.MachineryError("vacuous: no Manage after a call in " + ccfg)
+    cad = CoreAdapter(ccat["CT"], ccat["BT"])
+    ccap = 120 if _SELFTEST else 3000 if thorough else 220
+    managed = [c for c in ccases if c["path"] and c["path"][-1]["n"] == "Manage"]
+    others = [c for c in ccases if not (c["path"] and c["path"][-1]["n"] == "Manage")]
+    ctodo = ccases if len(ccases) <= ccap else rng.sample(managed, min(len(managed), ccap * 2 // 3)) + rng.sample(others, ccap // 3)
+    n = 0
+    divs = {}
+    for c in ctodo:
+        d = run_core_case(cad, c)
+        n += 1
+        if d:
+            divs.setdefault(key_of(d, "core"), d)
+            if len(divs) >= 15:
+                break
+    rep.add_replay("core", n, sum(1 for c in ctodo if c["path"]),
+                   "core level: a real Core with the reference assembly and 3-4 follower assemblies (same column, coarser fuel column, "
+                   "control assembly, duct block below the fuel); every emitted behaviour (calls on the reference assembly interleaved with "
+                   "manageCoreMesh) is executed and all assemblies are compared (heights, elevations, densities, masses, grid bounds, core mesh)")
+    for k, d in divs.items():
+        rep.violation(k, "real core diverges from CoreMesh after %s: %s" % (json.dumps(d["action"])[:300], d["first_difference"]),
+                      dict(d, direction="core"))
+
     # 4. code -> spec: seeded random histories (dyadic factors: the real arithmetic is exact) validated by TLC
     ntr = 25 if _SELFTEST else 300 if thorough else 50
     traces = trace_driver(Adapter(cat["CT"], cat["BT"]), ntr, 6, seed)
@@ -462,6 +491,9 @@ def run(rep, tier, seed):
         "below a fluid-only top block flagged DUMMY or below an ordinary (non-DUMMY) top block; changer built with detailedAxialExpansion "
         "True and False (a design dimension)",
         "explicit (blueprint) target components are always solid components of their block",
+        "core level: followers are not expanded themselves and only use block tops that exist in the reference mesh; the uniform-mesh snap "
+        "(setBlockMesh 'auto') is checked against what it documents: fuel of fuel blocks and solids below the fuel column keep their mass, "
+        "plenum and non-fuel-assembly densities are left alone",
         "a call that drives a block height negative raises ArithmeticError in the middle of the loop and leaves the assembly "
         "half-updated (modelled as such, terminal); ValueError from the temperature mapping leaves the lower blocks at their new temperature",
         "conservation clauses are read per block as written; 'expand then inverse restores' is read within the scope of the "
@@ -596,6 +628,12 @@ def replay(payload):
         d = run_case(ad, {"A": payload["A"], "path": payload["behaviour"], "obs": payload["expected"]})
         print(json.dumps(d, indent=1, default=str) if d else "no divergence: behaviour conforms")
         return 1 if d else 0
+    if direction == "core":
+        d = run_core_case(CoreAdapter(cat["CT"], cat["BT"]), {"A": payload["A"], "F": payload["F"], "path": payload["behaviour"],
+                                                            "obs": payload["expected"]["obs"], "fobs": payload["expected"]["fobs"],
+                                                            "coreMesh": payload["expected"]["coreMesh"]})
+        print(json.dumps(d, indent=1, default=str) if d else "no divergence: behaviour conforms")
+        return 1 if d else 0
     if direction == "clause":
         m = measure_clause(ad, {"A": payload["A"], "path": payload["behaviour"]}, payload["clause"])
         print(json.dumps(m, indent=1, default=str))
@@ -682,6 +720,17 @@ def selftest():
         #  already attached each block to that same cached location of the same grid object; tried, not observable)
         ("missing dummy accepted by a detailed changer", M(C, "_isTopDummyBlockPresent", "if self._detailedAxialExpansion:", "if False:")),
         ("missing dummy refused by the default changer too", M(C, "_isTopDummyBlockPresent", "if self._detailedAxialExpansion:", "if True:")),
+        ("seed2-1: one of the four link diameters taken hot (idA)",
+         M(L, "areAxiallyLinked", "idA = componentA.getCircleInnerDiameter(cold=True)", "idA = componentA.getCircleInnerDiameter()")),
+        ("link outer diameter of B taken hot (odB)",
+         M(L, "areAxiallyLinked", "odB = componentB.getBoundingCircleOuterDiameter(cold=True)", "odB = componentB.getBoundingCircleOuterDiameter()")),
+        ("seed2-4: manageCoreMesh snaps without conserveMassFlag='auto'",
+         M(C, "manageCoreMesh", 'a.setBlockMesh(r.core.refAssem.getAxialMesh(), conserveMassFlag="auto")', "a.setBlockMesh(r.core.refAssem.getAxialMesh())")),
+        ("manageCoreMesh conserves every mass (conserveMassFlag=True)",
+         M(C, "manageCoreMesh", 'conserveMassFlag="auto"', "conserveMassFlag=True")),
+        ("manageCoreMesh skips the core mesh update", M(C, "manageCoreMesh", "r.core.updateAxialMesh()", "pass")),
+        ("seed2-5: reference temperature 0.0 C treated as missing",
+         M(D, "_perComponentThermalExpansionFactors", "elif c in self.componentReferenceTemperature:", "elif self.componentReferenceTemperature.get(c):")),
         ("negative block height accepted", M(X, "_checkBlockHeight", "if b.getHeight() <= 0.0:", "if b.getHeight() < -1.0e9:")),
         ("zero block height accepted again (<= 0.0 back to < 0.0)", M(X, "_checkBlockHeight", "if b.getHeight() <= 0.0:", "if b.getHeight() < 0.0:")),
         ("link direction reversed (upper stored as lower)", M(K, "_getLinkedComponents", "AxialLink(lowerC, upperC)", "AxialLink(upperC, lowerC)")),
